@@ -5,6 +5,7 @@
 package verifmodels
 
 import (
+	"golang.org/x/crypto/sha3"
 	"time"
 	"crypto/aes"
 	"crypto/cipher"
@@ -33,10 +34,7 @@ func AESNewCipher(key []byte) (cipher.Block, error) {
 
 func (b *AESBlock) BlockSize() int { return 16 }
 
-type aesApp struct{ key, in, out []byte }
-
 var (
-	aesEncLog, aesDecLog []aesApp
 	// AESAxioms makes the model assert the permutation axioms D(E(x)) = x, E(D(y)) = y as
 	// solver constraints for every application made after it is set (so E_k and D_k are
 	// injective), in addition to the syntactic inverse shortcut. Off by default: most
@@ -44,38 +42,32 @@ var (
 	AESAxioms bool
 )
 
-// EncryptBlock returns E_k(x) as a fresh slice. The permutation axiom D_k(E_k(x)) = x is
-// instantiated lazily: only once some D application exists on the path (and then for
-// every E application, past and future), which keeps encrypt-only modes free of axioms.
+// EncryptBlock returns E_k(x) as a fresh slice. If x is literally D_k(y) for an earlier
+// DecryptBlock call, y is returned (E_k(D_k(y)) = y), and vice versa in DecryptBlock: the
+// inverse of a block the code itself produced needs no solver reasoning.
 func (b *AESBlock) EncryptBlock(x []byte) []byte {
 	x = append([]byte{}, x...)
-	for _, a := range aesDecLog {
-		// x is literally D_k(y) for an earlier y: E_k(D_k(y)) = y
-		if verifrt.SameBytes(a.key, b.key) && verifrt.SameBytes(a.out, x) {
-			return append([]byte{}, a.in...)
-		}
+	if y, ok := verifrt.MemoGet("aes.E-of-D", b.key, x); ok {
+		return y
 	}
 	y := verifrt.UF("AESE", 16, b.key, x)
 	if AESAxioms {
 		verifrt.AssumeEq(verifrt.UF("AESD", 16, b.key, y), x)
 	}
-	aesEncLog = append(aesEncLog, aesApp{b.key, x, y})
+	verifrt.MemoPut("aes.D-of-E", x, b.key, y)
 	return y
 }
 
 func (b *AESBlock) DecryptBlock(y []byte) []byte {
 	y = append([]byte{}, y...)
-	for _, a := range aesEncLog {
-		// y is literally E_k(x) for an earlier x: D_k(E_k(x)) = x
-		if verifrt.SameBytes(a.key, b.key) && verifrt.SameBytes(a.out, y) {
-			return append([]byte{}, a.in...)
-		}
+	if x, ok := verifrt.MemoGet("aes.D-of-E", b.key, y); ok {
+		return x
 	}
 	x := verifrt.UF("AESD", 16, b.key, y)
 	if AESAxioms {
 		verifrt.AssumeEq(verifrt.UF("AESE", 16, b.key, x), y)
 	}
-	aesDecLog = append(aesDecLog, aesApp{b.key, y, x})
+	verifrt.MemoPut("aes.E-of-D", y, b.key, x)
 	return x
 }
 
@@ -403,4 +395,130 @@ func TimeNow() time.Time {
 	nsec := verifrt.Int64("clock.nsec")
 	verifrt.Assume(sec >= 0 && sec <= 253402300799 && nsec >= 0 && nsec < 1000000000)
 	return time.Unix(sec, nsec)
+}
+
+// ---------------------------------------------------------------- CBC mode (its definition)
+
+type cbcMode struct {
+	b   cipher.Block
+	iv  []byte
+	dec bool
+}
+
+//verif:intercept crypto/cipher.NewCBCEncrypter
+func NewCBCEncrypter(b cipher.Block, iv []byte) cipher.BlockMode {
+	if len(iv) != b.BlockSize() {
+		panic("cipher.NewCBCEncrypter: IV length must equal block size")
+	}
+	return &cbcMode{b: b, iv: append([]byte{}, iv...)}
+}
+
+//verif:intercept crypto/cipher.NewCBCDecrypter
+func NewCBCDecrypter(b cipher.Block, iv []byte) cipher.BlockMode {
+	if len(iv) != b.BlockSize() {
+		panic("cipher.NewCBCDecrypter: IV length must equal block size")
+	}
+	return &cbcMode{b: b, iv: append([]byte{}, iv...), dec: true}
+}
+
+func (m *cbcMode) BlockSize() int { return m.b.BlockSize() }
+
+func (m *cbcMode) CryptBlocks(dst, src []byte) {
+	bs := m.b.BlockSize()
+	if len(src)%bs != 0 {
+		panic("crypto/cipher: input not full blocks")
+	}
+	if len(dst) < len(src) {
+		panic("crypto/cipher: output smaller than input")
+	}
+	for i := 0; i+bs <= len(src); i += bs {
+		in := append([]byte{}, src[i:i+bs]...)
+		out := make([]byte, bs)
+		if m.dec {
+			m.b.Decrypt(out, in)
+			for j := range out {
+				out[j] ^= m.iv[j]
+			}
+			m.iv = in
+		} else {
+			for j := range in {
+				in[j] ^= m.iv[j]
+			}
+			m.b.Encrypt(out, in)
+			m.iv = out
+		}
+		copy(dst[i:i+bs], out)
+	}
+}
+
+// ---------------------------------------------------------------- SHAKE (x/crypto/sha3)
+
+// Shake is an extendable-output function modelled as an uninterpreted function of the
+// absorbed message; output chunk k (32 bytes) = SHAKE_alg(msg, k), so successive Reads
+// are prefix-consistent.
+type Shake struct {
+	alg      string
+	msg      []byte
+	pos      int
+	squeezed bool
+}
+
+func (s *Shake) Write(p []byte) (int, error) {
+	if s.squeezed {
+		panic("sha3: Write after Read")
+	}
+	s.msg = append(s.msg, p...)
+	return len(p), nil
+}
+
+func (s *Shake) Read(p []byte) (int, error) {
+	s.squeezed = true
+	for i := range p {
+		k := s.pos / 32
+		chunk := verifrt.UF("SHAKE_"+s.alg, 32, s.msg, []byte{byte(k), byte(k >> 8)})
+		p[i] = chunk[s.pos%32]
+		s.pos++
+	}
+	return len(p), nil
+}
+
+func (s *Shake) Sum(b []byte) []byte {
+	c := &Shake{alg: s.alg, msg: append([]byte{}, s.msg...)}
+	out := make([]byte, s.Size())
+	c.Read(out)
+	return append(b, out...)
+}
+func (s *Shake) Reset() { s.msg, s.pos, s.squeezed = nil, 0, false }
+func (s *Shake) Size() int {
+	if s.alg == "128" {
+		return 32
+	}
+	return 64
+}
+func (s *Shake) BlockSize() int {
+	if s.alg == "128" {
+		return 168
+	}
+	return 136
+}
+func (s *Shake) Clone() sha3.ShakeHash {
+	return &Shake{alg: s.alg, msg: append([]byte{}, s.msg...), pos: s.pos, squeezed: s.squeezed}
+}
+
+//verif:intercept golang.org/x/crypto/sha3.NewShake128
+func NewShake128() sha3.ShakeHash { return &Shake{alg: "128"} }
+
+//verif:intercept golang.org/x/crypto/sha3.NewShake256
+func NewShake256() sha3.ShakeHash { return &Shake{alg: "256"} }
+
+//verif:intercept golang.org/x/crypto/sha3.ShakeSum128
+func ShakeSum128(hash, data []byte) {
+	s := &Shake{alg: "128", msg: append([]byte{}, data...)}
+	s.Read(hash)
+}
+
+//verif:intercept golang.org/x/crypto/sha3.ShakeSum256
+func ShakeSum256(hash, data []byte) {
+	s := &Shake{alg: "256", msg: append([]byte{}, data...)}
+	s.Read(hash)
 }
